@@ -122,6 +122,9 @@ def k2_tokens(run, texts, where):
         return
     docs = list(zip(texts, toks)) + [(joined, jt)]
     res = model.batch(ENG, [T(Sym("split"), t) for _x, t in docs])
+    # the same from the TEXT: Gql/Lex.v + Model/TopLevel.v entirely inside the model (Model/LexTop.v)
+    ascii_docs = [x for x, _t in docs if x.isascii()]
+    res_text = dict(zip(ascii_docs, model.batch(ENG, [[Sym("lextop"), Sym("split-text"), x] for x in ascii_docs])))
     per_file = []
     for (text, _t), r in zip(docs, res):
         want = parser_split(text)
@@ -131,6 +134,14 @@ def k2_tokens(run, texts, where):
         run.dist("toplevel_documents", "type-system document")
         got = None if r[0] != "ok" else [(int(n), sm[0] == "t", sm[1], sm[2]) if sm != "none" else (int(n),) for n, sm in r[1]]
         per_file.append(got)
+        rt = res_text.get(text)
+        if rt is not None:
+            got_t = None if rt[0] != "ok" else [(int(n), sm[0] == "t", sm[1], sm[2]) if sm != "none" else (int(n),) for n, sm in rt[1]]
+            run.dist("toplevel_documents", "lexed and split inside the model")
+            if got_t != want:
+                run.broken("K2 Gql/Lex.v + Model/TopLevel.v (from text) split a document differently from graphql-core's parser",
+                           json.dumps({"where": where, "text": text, "parser": want, "model": got_t, "raw": rt if rt[0] != "ok" else None})[:1800])
+                return
         if got != want:
             run.broken("K2 Model/TopLevel.v splits a document differently from graphql-core's parser",
                        json.dumps({"where": where, "text": text, "parser": want, "model": got})[:1800])
